@@ -178,7 +178,7 @@ func runC15(c *hc.Ctx) error {
 	}
 
 	seen := map[string]bool{}
-	tilesPerMatrix := c.N(2, 40)
+	tilesPerMatrix := c.N(4, 30)
 	if c.Search {
 		tilesPerMatrix *= 6
 	}
